@@ -32,6 +32,16 @@ var (
 	ErrWrappedEOF = fmt.Errorf("sim: peer closed the connection: %w", io.EOF)
 )
 
+// TimeoutError looks like a deadline error of the net package: it has Timeout() == true.
+type TimeoutError struct{}
+
+func (TimeoutError) Error() string   { return "sim: i/o timeout" }
+func (TimeoutError) Timeout() bool   { return true }
+func (TimeoutError) Temporary() bool { return true }
+
+// ErrTimeout is the comparable instance used as an injectable error.
+var ErrTimeout error = TimeoutError{}
+
 // PtrEOFError is a pointer-typed error whose Unwrap returns io.EOF.
 type PtrEOFError struct{ Msg string }
 
@@ -53,12 +63,14 @@ func TermError(k int) error {
 		return ErrWrapped
 	case 5:
 		return ErrWrappedEOF
-	default:
+	case 6:
 		return &PtrEOFError{"sim: pointer-typed error wrapping io.EOF"}
+	default:
+		return ErrTimeout
 	}
 }
 
-const NumTermErrors = 7
+const NumTermErrors = 8
 
 // SourceCfg is the delivery profile of a Source (chosen swarm-style per run).
 type SourceCfg struct {
@@ -117,7 +129,7 @@ func RandomSourceCfg(s *Stream, n int) SourceCfg {
 		cfg.ZeroDen = []int{2, 4, 16}[s.Choose(3)]
 		cfg.ZeroMax = []int{1, 3, 8}[s.Choose(3)]
 	}
-	cfg.Err = TermError(s.Pick(6, 1, 2, 1, 1, 1, 1))
+	cfg.Err = TermError(s.Pick(6, 1, 2, 1, 1, 1, 1, 1))
 	cfg.WithData = s.Pick(2, 2, 3)
 	return cfg
 }
